@@ -592,6 +592,11 @@ static Space make_space(const std::string& id) {
       S.ops.push_back(opSet(r, "u_0", 7.5L)); S.ops.push_back(mk(GETNAME, r));
       if (r == 0) { S.ops.push_back(opEval(r, "source_rho_u", "S", 0)); S.ops.push_back(opInit(r, "heateq_2d_steady_const", "no_such_solution")); S.ops.push_back(opInit(r, "euler_1d", "euler_1dd")); }
     }
+  } else if (id == "c16l") {
+    // registered handles of 32..41 and 64 characters that share their first character with an unknown handle: the error path may look at them
+    S.solutions = {"euler_1d"}; S.key_last = false;
+    for (int len : {32, 33, 39, 40, 41, 64}) { std::string h(len, 'h'); h[len - 1] = 'z'; S.ops.push_back(opInit(0, h, "euler_1d")); }
+    S.ops.push_back(opSel(0, "hX-unknown")); S.ops.push_back(opSel(0, std::string(36, 'h'))); S.ops.push_back(opInit(0, "hnew", "no_such_solution")); S.ops.push_back(mk(GETNAME, 0));
   } else if (id == "c16s") {
     // registry alphabet with misuse for the all-sequences exploration: in the exception build the history continues through every caught failure
     S.solutions = {"euler_1d", "heateq_2d_steady_const"};
@@ -695,6 +700,7 @@ static Space make_space(const std::string& id) {
       S.ops.push_back(opInit(0, "a", "euler_1d", c)); if (c || g_tier) S.ops.push_back(opInit(0, "r", "radiation_integrated_intensity", c));
       S.ops.push_back(opSel(0, "a", c)); if (c) S.ops.push_back(opSel(0, "r", c));
       S.ops.push_back(opSet(0, "u_0", 7.5L, c)); if (c) S.ops.push_back(opGet(0, "u_0", c)); if (c) S.ops.push_back(opGet(0, "nosuch", c));
+      if (c) { S.ops.push_back(opSetVec(0, "u_0", 1, c)); S.ops.push_back(opSetVec(0, "u_0", 3, c)); S.ops.push_back(opGetVec(0, "u_0", c)); }  // a scalar parameter's name is not an array name
       if (c) { S.ops.push_back(opGet(0, "u_0\xc2\xb0", c)); S.ops.push_back(opSet(0, "u_0\xe9", 3.25L, c)); S.ops.push_back(opGetVec(0, "vec_mean\xe2\x80\x8b", c)); }  // a registered name followed by a non-ASCII byte is another (unknown) name
       if (c) { S.ops.push_back(mk(PURGE, 0, c)); S.ops.push_back(mk(INITPARAM, 0, c)); S.ops.push_back(mk(SANITY, 0, c)); S.ops.push_back(mk(GETNAME, 0, c)); S.ops.push_back(mk(GETDIM, 0, c)); S.ops.push_back(mk(DISPLAY, 0, c)); S.ops.push_back(mk(DISPLAYVEC, 0, c)); S.ops.push_back(mk(LIST, 0, c)); }
       else { S.ops.push_back(mk(PURGE, 0, c)); S.ops.push_back(mk(INITPARAM, 0, c)); }
